@@ -40,3 +40,27 @@ def replay_keys(inp):
             os.unlink(os.path.join(d, f))
         os.rmdir(d)
     return {"violates": bool(bad), "detail": bad[:3]}
+
+
+def ecdsa_short_coordinate(inp):
+    """ECDSA keys whose public point has a coordinate shorter than the field width (leading zero octets): the public blob
+    must keep the fixed width and parse back to an equal key"""
+    from cryptography.hazmat.primitives.asymmetric import ec
+    from paramiko import ECDSAKey
+    bad = []
+    for curve, scalars in ((ec.SECP256R1(), (2376, 1, 2, 3)), (ec.SECP521R1(), (73, 1, 2)), (ec.SECP384R1(), (1, 2, 3))):
+        size = (curve.key_size + 7) // 8
+        for d in scalars:
+            priv = ec.derive_private_key(d, curve)
+            k = ECDSAKey(vals=(priv, priv.public_key()))
+            blob = k.asbytes()
+            point_len = int.from_bytes(blob[-(1 + 2 * size) - 4:-(1 + 2 * size)], "big") if len(blob) > 1 + 2 * size + 4 else -1
+            try:
+                back = ECDSAKey(data=blob)
+                ok = back == k and point_len == 1 + 2 * size
+            except Exception as e:
+                ok = False
+                back = repr(e)
+            if not ok:
+                bad.append({"curve": curve.name, "private_scalar": d, "why": "public blob does not keep the fixed-width point / does not parse back: %s" % (back,)})
+    return {"violates": bool(bad), "detail": bad[:3]}
